@@ -1281,6 +1281,207 @@ def shrink(ast, still_fails, max_rounds=30, max_tests=400):
     return ast
 
 
+# ================================================================== list programs
+# (an addition: nothing above calls it; gen_program's random stream is unchanged)
+LIST_WEIGHTS = dict(
+    n_lists=(2, 3), n_items=(2, 4), n_lvars=(2, 4), lv_empty=0.55, list_density=0.5, list_funcs=0.7,
+    list_temps=0.25,
+    # forms that make two variables / a variable and a program literal share one (mutable) empty list value
+    # (finding c17-empty-list-value-shared: origin names written through one holder show through the others,
+    # and survive reset_state): bare variable on the right of a list assignment, `~ temp t = ()` declarations
+    # that can be executed twice in one frame, functions returning a bare variable / literal
+    list_alias=0.0,
+)
+
+
+def listify(rng, ast, **weights):
+    """Turn a generated program into a LIST program (in place; returns ast): several LIST declarations
+    (items marked as initially selected, explicit values), list-typed globals initialised to `()`, to one item
+    and to items of different LISTs, and list statements spread over every block: assignments of `()`, of items
+    (of any LIST), of computed lists, `+=` / `-=`, printed {v} LIST_ALL LIST_INVERT LIST_COUNT LIST_MIN LIST_MAX
+    LIST_VALUE LIST_RANGE, `?` / `!?`, list conditions, functions taking list parameters (by value and by `ref`),
+    list temporaries.  Every random choice from `rng`; uses only the raw-text expression kind ["list", text]
+    the printer already has.  ast["listinfo"] = {"lists": {name: [item..]}, "vars": [name..], "funcs": [..]}."""
+    w = dict(LIST_WEIGHTS)
+    w.update(weights)
+    r = rng
+    alias = w["list_alias"]
+    lists, items = {}, []
+    decl = []
+    for li in range(r.randint(*w["n_lists"])):
+        lname = "L" + "abcd"[li]
+        its = ["%s%d" % ("abcd"[li], j) for j in range(r.randint(*w["n_items"]))]
+        lists[lname] = its
+        items += [(lname, x) for x in its]
+        shown, val = [], 0
+        for x in its:
+            t = x
+            if r.random() < 0.15:
+                val += r.randint(2, 3)
+                t = "%s = %d" % (x, val)
+            else:
+                val += 1
+            shown.append("(" + t + ")" if r.random() < 0.3 else t)
+        decl.append([lname, shown])
+    ast["lists"] = ast.get("lists", []) + decl
+
+    def item():
+        ln, x = r.choice(items)
+        return ln + "." + x if r.random() < 0.2 else x
+
+    def lit(empty=0.35):
+        x = r.random()
+        if x < empty:
+            return "()"
+        if x < empty + (1 - empty) * 0.6:
+            return item()
+        return "(" + ", ".join(sorted(set(item() for _ in range(r.randint(2, 3))))) + ")"
+
+    lvars = ["lv%d" % i for i in range(r.randint(*w["n_lvars"]))]
+    for i, v in enumerate(lvars):
+        ast["globals"].append([v, ["list", "()" if (i == 0 or r.random() < w["lv_empty"]) else lit(0.0)]])
+    allvars = lvars + list(lists)
+
+    funcs = []
+    fknots = []
+    if r.random() < w["list_funcs"]:
+        fknots.append({"name": "lclr", "params": ["ref l"], "function": True, "stitches": [],
+                       "body": [["assign", "l", ["list", "()"]]]})
+        fknots.append({"name": "lall", "params": ["l"], "function": True, "stitches": [],
+                       "body": [["return", ["list", "LIST_ALL(l)"]]]})
+        fknots.append({"name": "ladd", "params": ["ref l", "x"], "function": True, "stitches": [],
+                       "body": [["eval", ["list", "l += x"]]]})
+        fknots.append({"name": "lpop", "params": ["ref l"], "function": True, "stitches": [],
+                       "body": [["temp", "x", ["list", "LIST_MIN(l)"]], ["eval", ["list", "l -= x"]],
+                                ["return", ["list", "x"]]]})
+        funcs = ["lclr", "lall", "ladd", "lpop"]
+        if r.random() < alias:
+            fknots.append({"name": "lsame", "params": ["l"], "function": True, "stitches": [],
+                           "body": [["return", ["list", "l"]]]})
+            funcs.append("lsame")
+
+    def computed(vs):
+        v = r.choice(vs)
+        k = r.randint(0, 8)
+        if k == 0:
+            return "LIST_ALL(%s)" % v
+        if k == 1:
+            return "LIST_INVERT(%s)" % v
+        if k == 2:
+            return "%s + %s" % (v, item())
+        if k == 3:
+            return "%s - %s" % (v, item())
+        if k == 4:
+            return "%s ^ %s" % (v, lit(0.1))
+        if k == 5:
+            return "%s + %s" % (v, r.choice(vs))
+        if k == 6:
+            return "%s - %s" % (v, r.choice(vs))
+        if k == 7:
+            return "LIST_RANGE(LIST_ALL(%s), %d, %d)" % (r.choice(list(lists)), r.randint(1, 2), r.randint(2, 4))
+        return "%s - LIST_ALL(%s)" % (v, v)
+
+    def observation(vs):
+        v = r.choice(vs)
+        k = r.randint(0, 11)
+        if k <= 2:
+            return "LIST_ALL(%s)" % v
+        if k == 3:
+            return "LIST_INVERT(%s)" % v
+        if k == 4:
+            return v
+        if k == 5:
+            return "LIST_COUNT(%s)" % v
+        if k == 6:
+            return "LIST_MIN(%s)" % v
+        if k == 7:
+            return "LIST_MAX(%s)" % v
+        if k == 8:
+            return "LIST_VALUE(%s)" % v
+        if k == 9:
+            return "%s %s %s" % (v, r.choice(["?", "!?"]), item())
+        if k == 10 and "lall" in funcs:
+            return "lall(%s)" % v
+        return "LIST_COUNT(LIST_INVERT(%s))" % v
+
+    tcount = [0]
+
+    def show(vs):
+        c = [["t", r.choice(["now", "could be", "holds", "left"]) + " "], ["e", ["list", observation(vs)]]]
+        if r.random() < 0.4:
+            c += [["t", " and "], ["e", ["list", observation(vs)]]]
+        if r.random() < 0.25:
+            c += [["t", " "], ["c", ["list", r.choice(vs)], [["t", "some"]], [["t", "none"]]]]
+        c.append(["t", "."])
+        return ["line", c, [], None]
+
+    def assign(vs, targets):
+        v = r.choice(targets)
+        k = r.random()
+        if k < 0.45:
+            return ["assign", v, ["list", lit()]]
+        if k < 0.6:
+            return ["eval", ["list", "%s %s %s" % (v, r.choice(["+=", "-="]), item())]]
+        if k < 0.7:
+            if funcs:
+                f = r.choice(["lclr", "ladd", "lpop"])
+                return ["eval", ["list", "%s(%s%s)" % (f, v, ", " + item() if f == "ladd" else "")]]
+            return ["assign", v, ["list", "()"]]
+        if k < 0.7 + 0.3 * alias:
+            return ["assign", v, ["list", r.choice(vs) if r.random() < 0.7 or "lsame" not in funcs
+                                  else "lsame(%s)" % r.choice(vs)]]
+        return ["assign", v, ["list", computed(vs)]]
+
+    def group():
+        """one or more consecutive list statements"""
+        out = []
+        vs = list(allvars)
+        if r.random() < w["list_temps"]:
+            tcount[0] += 1
+            t = "tl%d" % tcount[0]
+            # (a declaration `~ temp t = ()` executed twice in one frame is an alias form: see list_alias)
+            init = "()" if r.random() < alias else (lit(0.0) if r.random() < 0.5 else computed(vs))
+            out.append(["temp", t, ["list", init]])
+            if r.random() < 0.6:
+                out.append(["assign", t, ["list", lit(0.7)]])
+            out.append(show([t]))
+            return out
+        for _ in range(r.choice([1, 1, 2, 3])):
+            out.append(assign(vs, vs) if r.random() < 0.6 else show(vs))
+        return out
+
+    def blk(b, function=False):
+        out = []
+        for i, s in enumerate(b):
+            prev = b[i - 1] if i else None
+            ok = not (prev is not None and prev[0] == "gather" and prev[1] is None) \
+                and not (prev is not None and prev[0] in ("divert", "return")) and s[0] != "gather"
+            # (not directly before a gather: the statement would become part of the last choice's body)
+            if ok and r.random() < w["list_density"]:
+                out += group()
+            if s[0] == "choices":
+                for c in s[1]:
+                    c["body"] = blk(c["body"])
+            elif s[0] == "if":
+                for br in s[1]:
+                    br[1] = blk(br[1])
+                if s[2]:
+                    s[2] = blk(s[2])
+            out.append(s)
+        return out
+
+    ast["top"] = blk(ast["top"])
+    for k in ast["knots"]:
+        if k["function"]:
+            continue
+        k["body"] = blk(k["body"])
+        for s in k["stitches"]:
+            s["body"] = blk(s["body"])
+    ast["knots"] = ast["knots"] + fknots
+    ast["listinfo"] = {"lists": lists, "vars": allvars, "funcs": funcs}
+    return ast
+
+
 if __name__ == "__main__":
     import sys
     seed = int(sys.argv[1]) if len(sys.argv) > 1 else 1
